@@ -117,6 +117,22 @@ def simpler_msgs(ops):
                 yield o2
 
 
+def fewer_ops(ops):
+    """smaller operation lists, big cuts first (nothing, halves, then one by one)"""
+    n = len(ops)
+    if n == 0:
+        return
+    yield []
+    if n > 3:
+        yield ops[:n // 2]
+        yield ops[n // 2:]
+        q = max(n // 4, 1)
+        for i in range(0, n, q):
+            yield ops[:i] + ops[i + q:]
+    for i in range(n):
+        yield ops[:i] + ops[i + 1:]
+
+
 def op_label(op):
     return ("c:" + op["c"]["t"]) if op["d"] == "c" else ("s:" + op["m"]["t"])
 
